@@ -1,12 +1,12 @@
 /-
   C29 model: histories of the flooder's sleep/wake command machinery (MM/Model/C28.lean:
-  `handle` = HandleSleepCommand/HandleWakeCommand with the mark-BEFORE-verify order of the code,
+  `handle` = HandleSleepCommand/HandleWakeCommand (verify, then test-and-set of the seen cache),
   `expire` = TTL pass of cleanupSleepCmdCache) under an explicit clock.
 
   Events of a history:
     deliver k from c   a SLEEP_COMMAND / WAKE_COMMAND delivery at the current instant
     advance d          the clock moves forward by d ns (d : Nat, so time is monotone)
-    cleanup victims    one run of cleanupSleepCmdCache(now, SeenCacheTTL): TTL expiry, then, if the
+    cleanup victims    one run of cleanupSleepCmdCache(now, max(SeenCacheTTL, 2*window)): TTL expiry, then, if the
                        cache is still larger than MaxSeenCacheSize, `excess` entries are deleted.
                        Go deletes whichever entries map iteration yields first; the history names
                        them (`victims`, keys).  A choice that is not a legal one (wrong number, not
@@ -41,13 +41,15 @@ def inVictims (vs : List (Nat × Nat)) (e : Seen) : Bool := vs.any fun v => v.1 
 def legalVictims (l : List Seen) (excess : Nat) (vs : List (Nat × Nat)) : Bool :=
   vs.length == excess && vs.Nodup && vs.all fun v => hasKey l v.1 v.2
 
-/-- `cleanupSleepCmdCache(now, ttl)`. -/
-def cleanup (cfg : FCfg) (l : List Seen) (now : Int) (vs : List (Nat × Nat)) : List Seen :=
-  let l1 := expire l now cfg.ttl
+/-- `cleanupSleepCmdCache(now, sleepCmdCacheTTL())`. -/
+def cleanupWith (ttl : Int) (cfg : FCfg) (l : List Seen) (now : Int) (vs : List (Nat × Nat)) : List Seen :=
+  let l1 := expire l now ttl
   let excess := l1.length - cfg.maxSize
   if excess = 0 then l1
   else if legalVictims l1 excess vs then l1.filter fun e => !inVictims vs e
   else l1.drop excess
+
+def cleanup (cfg : FCfg) := cleanupWith (sleepTtl cfg) cfg
 
 /-- One event.  Returns the new state, the command accepted by this event (if any), and frames sent. -/
 def stepEv (V : Verifier) (cfg : FCfg) (s : HState) : Ev → HState × Option Cmd × List (Nat × Kind × Cmd)
@@ -68,6 +70,25 @@ def accepts (V : Verifier) (cfg : FCfg) (target : Cmd) : HState → List Ev → 
     (match acc with
       | some c => if sameCmd c target then 1 else 0
       | none => 0) + accepts V cfg target s' es
+
+/-! The code before fixes/C29-verify-before-mark.patch and fixes/C29-sleep-cache-ttl.patch
+    (seen cache marked before verification; cache TTL = SeenCacheTTL): regression witnesses only. -/
+
+def stepEvPinned (V : Verifier) (cfg : FCfg) (s : HState) : Ev → HState × Option Cmd
+  | .deliver k from_ c =>
+    let (f', acc, _) := handleMarkFirst V cfg s.f s.now k from_ c
+    ({ s with f := f' }, if acc then some c else none)
+  | .advance d => ({ s with now := s.now + d }, none)
+  | .cleanup vs => ({ s with f := { s.f with seen := cleanupWith cfg.ttl cfg s.f.seen s.now vs } }, none)
+  | .peer _ => (s, none)
+
+def acceptsPinned (V : Verifier) (cfg : FCfg) (target : Cmd) : HState → List Ev → Nat
+  | _, [] => 0
+  | s, e :: es =>
+    let (s', acc) := stepEvPinned V cfg s e
+    (match acc with
+      | some c => if sameCmd c target then 1 else 0
+      | none => 0) + acceptsPinned V cfg target s' es
 
 def HState.init (now : Int) : HState := { f := FState.empty, now }
 
